@@ -6,7 +6,7 @@ inputs, in double and in float (the model then runs with a NumOps rounding every
 import os, sys, math, struct
 from vlib import *
 
-PROPS = ['Props/Properties_C27.v', 'Props/Properties_C27Q.v', 'Props/Properties_C27X.v']
+PROPS = ['Props/Properties_C27.v', 'Props/Properties_C27Q.v', 'Props/Properties_C27X.v', 'Props/Properties_C27A.v']
 EXTRACT = '''From Coq Require Import Extraction ExtrOcamlBasic.
 Require Import Num Vec rot27_gen C27_Model.
 Extraction Language OCaml.
